@@ -109,6 +109,16 @@ FAMILIES = {
         pairs=[(dict(CFG0, attrs="env=prod"), dict(CFG0, addHost=True)), (dict(CFG0, addHost=True), CFG0), (dict(CFG0, addHost=True), dict(CFG0, addCounts=True))],
         consts=dict(TraceTimeout=2, SendDelay=1, SpanLimit=0, MaxExpired=0),
         thorough=dict(MaxSpans=3, MaxNow=2, ArriveUntil=0), quick=dict(MaxSpans=2, MaxNow=2, ArriveUntil=0)),
+    # C06 x C07: a trace that SURVIVES a memory-pressure ejection pass (a heavier neighbour covers the bytes to free) keeps buffering
+    # spans, span events and links and is decided later: the counts on its root are those of the whole trace
+    "DecorEject": dict(
+        comment="C06/C07: counts options on; ejection pass with share 1 over a light and a heavy trace on one worker, the survivor keeps growing",
+        workerOf={"tA": 0, "tB": 0}, verdicts=[{"tA": K2, "tB": K2}],
+        reasons=["deterministic/chance"],
+        shapes=[shape(), shape(kind="link"), shape(root=True)],
+        cfgs=[dict(CFG0, addCounts=True, addSpanCount=True)], init=dict(CFG0, addCounts=True, addSpanCount=True), eject=[1], stress=[],
+        consts=dict(TraceTimeout=3, SendDelay=1, SpanLimit=0, MaxExpired=0),
+        thorough=dict(MaxSpans=3, MaxNow=2, ArriveUntil=0), quick=dict(MaxSpans=2, MaxNow=2, ArriveUntil=0)),
     # C07: ejection
     "Eject": dict(
         comment="C07: memory-pressure ejection with shares {0,1,3} over buffers of different sizes on 2 workers",
